@@ -28,6 +28,15 @@ M = "setuptools_v65_version"
 OPS = {"__lt__": ast.Lt, "__le__": ast.LtE, "__eq__": ast.Eq, "__ge__": ast.GtE, "__gt__": ast.Gt, "__ne__": ast.NotEq}
 
 
+def _deref(fn, e: ast.AST) -> ast.AST:
+    """A bare local name stands for its single definition (pieces computed into locals before the constructor call)."""
+    if isinstance(e, ast.Name):
+        d = shapes.single_def(fn, e.id)
+        if d is not None:
+            return d
+    return e
+
+
 def _single_return(fn) -> T.Optional[ast.AST]:
     rets = [n for n in walk_no_nested(fn.node) if isinstance(n, ast.Return)]
     return rets[0].value if len(rets) == 1 else None
@@ -44,6 +53,12 @@ def run(ctx) -> None:
     ctx.rule("R8", "key components are mutually comparable: local labels are int (digits) or lower-cased str; legacy parts are str, numbers zero-padded to >= 8 digits")
     ctx.rule("R9", "legacy key = the pkg_resources scheme: evaluated over bounded token sequences against the reference algorithm (terminates, never raises, numbers compare numerically, pre-release words before the bare version)")
     ctx.rule("R7", "canonical printing: optional segments tested with `is not None` (0 is a valid number); spellings lower-cased before normalisation")
+
+    # evaluation-based decisions first; the structural rules below are the fallback for what could not be evaluated
+    decided: T.Dict[str, bool] = {}
+    decided.update(canonical_str_rule(ctx, "R7"))
+    decided.update(legacy_key_rule(ctx, "R9"))
+    decided.update(pep440_key_rule(ctx, "R4"))
 
     base = prog.klass(f"{M}._BaseVersion")
     n = 0
@@ -80,13 +95,15 @@ def run(ctx) -> None:
         val = -first.operand.value
     elif isinstance(first, ast.Constant):
         val = first.value
-    ctx.check("R2", val == -1, "_legacy_cmpkey returns (-1, parts): legacy sorts below every PEP 440 version", f"{M}._legacy_cmpkey: legacy epoch is not the constant -1",
-              f"first element {unparse(first) if first is not None else None}", loc=lk.loc())
-    ctx.check("R2", isinstance(rv, ast.Tuple) and len(rv.elts) == 2 and unparse(rv.elts[1]) == "tuple(parts)", "_legacy_cmpkey: second element is the tuple of parts", f"{M}._legacy_cmpkey: key shape changed", "", loc=lk.loc())
+    if not decided.get("_legacy_cmpkey"):
+        ctx.check("R2", val == -1, "_legacy_cmpkey returns (-1, parts): legacy sorts below every PEP 440 version", f"{M}._legacy_cmpkey: legacy epoch is not the constant -1",
+                  f"first element {unparse(first) if first is not None else None}", loc=lk.loc())
+        ctx.check("R2", isinstance(rv, ast.Tuple) and len(rv.elts) == 2 and unparse(rv.elts[1]) == "tuple(parts)", "_legacy_cmpkey: second element is the tuple of parts", f"{M}._legacy_cmpkey: key shape changed", "", loc=lk.loc())
     vinit = prog.klass(f"{M}.Version").methods["__init__"]
     ctx.visit(vinit.fq)
-    ep = [kw.value for c in ast.walk(vinit.node) if isinstance(c, ast.Call) and unparse(c.func) == "_Version" for kw in c.keywords if kw.arg == "epoch"]
-    ok = len(ep) == 1 and isinstance(ep[0], ast.IfExp) and unparse(ep[0].body) in ("int(match.group('epoch'))",) and isinstance(ep[0].orelse, ast.Constant) and ep[0].orelse.value == 0
+    ep = [_deref(vinit, kw.value) for c in ast.walk(vinit.node) if isinstance(c, ast.Call) and unparse(c.func) == "_Version" for kw in c.keywords if kw.arg == "epoch"]
+    ok = len(ep) == 1 and isinstance(ep[0], ast.IfExp) and unparse(shapes.inline(vinit, ep[0].body, prog)).startswith("int(") and unparse(shapes.inline(vinit, ep[0].body, prog)).endswith(".group('epoch'))") \
+        and isinstance(ep[0].orelse, ast.Constant) and ep[0].orelse.value == 0
     ctx.check("R2", ok, "Version epoch = int(match.group('epoch')) or 0", f"{M}.Version: epoch derivation changed", unparse(ep[0]) if ep else "", loc=vinit.loc())
     vp = prog.const(M, "VERSION_PATTERN")
     ctx.check("R2", "(?P<epoch>[0-9]+)!" in vp, "VERSION_PATTERN: epoch group is [0-9]+ (non-negative)", f"{M}.VERSION_PATTERN: epoch group changed", "", loc=f"src/bumpver/{M}.py")
@@ -117,45 +134,56 @@ def run(ctx) -> None:
     ctx.visit(ck.fq)
     cfg = cfgs.get(ck.fq)
     from sa.pathcond import assign_facts, ifexp_atoms
-    need = ["pre is None", "post is None", "dev is None", "local is None"]
-    pc = PathCond(cfg, extra_atoms=list(dict.fromkeys(need + ifexp_atoms(ck.node))))
-    PRE, POST, DEV, LOC = (BF.var(a) for a in need)
-    assigns: T.Dict[T.Tuple[str, str], BF] = {}
-    for tgt, val, cond, _st in assign_facts(cfg, pc, ("_pre", "_post", "_dev", "_local")):
-        key = (tgt, unparse(val) if not isinstance(val, ast.Call) else "<computed>")
-        assigns[key] = assigns.get(key, BF.false()) | cond
-    spec = {
-        ("_pre", "NegativeInfinity"): PRE & POST & ~DEV,
-        ("_pre", "Infinity"): PRE & ~(PRE & POST & ~DEV),
-        ("_pre", "pre"): ~PRE,
-        ("_post", "NegativeInfinity"): POST,
-        ("_post", "post"): ~POST,
-        ("_dev", "Infinity"): DEV,
-        ("_dev", "dev"): ~DEV,
-        ("_local", "NegativeInfinity"): LOC,
-        ("_local", "<computed>"): ~LOC,
-    }
-    ctx.floor("R4", "sentinel assignments in _cmpkey", len(assigns), 6)
-    for key, want in spec.items():
-        got = assigns.get(key)
-        ok = got is not None and got.project(need).equiv(want)
-        if got is None:
-            got = BF.false()
-        ctx.check("R4", ok, f"_cmpkey: {key[0]} := {key[1]} iff {want.to_dnf()}", f"{M}._cmpkey: segment rule for {key[0]} := {key[1]} changed",
-                  f"assigned when {got.project(need).to_dnf()}; PEP 440 rule: {want.to_dnf()}", loc=ck.loc(),
-                  witness=got.project(need).diff_witness(want))
-    for key in assigns:
-        if key not in spec:
-            ctx.bad("R4", f"{M}._cmpkey: unexpected assignment {key[0]} := {key[1]}", "", loc=ck.loc())
-    rv = _single_return(ck)
-    ctx.check("R4", rv is not None and unparse(rv) == "(epoch, _release, _pre, _post, _dev, _local)", "_cmpkey returns (epoch, _release, _pre, _post, _dev, _local)",
-              f"{M}._cmpkey: key tuple order changed", unparse(rv) if rv is not None else "", loc=ck.loc())
-    rel = shapes.single_def(ck, "_release")
-    ok = rel is not None and "itertools.dropwhile(lambda x: x == 0, reversed(release))" in unparse(rel) and unparse(rel).startswith("tuple(reversed(")
-    ctx.check("R4", ok, "_cmpkey: trailing zeros of the release are dropped", f"{M}._cmpkey: release normalisation changed", unparse(rel) if rel is not None else "", loc=ck.loc())
+    if not decided.get("_cmpkey"):
+        need = ["pre is None", "post is None", "dev is None", "local is None"]
+        pc = PathCond(cfg, extra_atoms=list(dict.fromkeys(need + ifexp_atoms(ck.node))))
+        PRE, POST, DEV, LOC = (BF.var(a) for a in need)
+        assigns: T.Dict[T.Tuple[str, str], BF] = {}
+        for tgt, val, cond, _st in assign_facts(cfg, pc, ("_pre", "_post", "_dev", "_local")):
+            key = (tgt, unparse(val) if not isinstance(val, ast.Call) else "<computed>")
+            assigns[key] = assigns.get(key, BF.false()) | cond
+        spec = {
+            ("_pre", "NegativeInfinity"): PRE & POST & ~DEV,
+            ("_pre", "Infinity"): PRE & ~(PRE & POST & ~DEV),
+            ("_pre", "pre"): ~PRE,
+            ("_post", "NegativeInfinity"): POST,
+            ("_post", "post"): ~POST,
+            ("_dev", "Infinity"): DEV,
+            ("_dev", "dev"): ~DEV,
+            ("_local", "NegativeInfinity"): LOC,
+            ("_local", "<computed>"): ~LOC,
+        }
+        ctx.floor("R4", "sentinel assignments in _cmpkey", len(assigns), 6)
+        for key, want in spec.items():
+            got = assigns.get(key)
+            ok = got is not None and got.project(need).equiv(want)
+            if got is None:
+                got = BF.false()
+            ctx.check("R4", ok, f"_cmpkey: {key[0]} := {key[1]} iff {want.to_dnf()}", f"{M}._cmpkey: segment rule for {key[0]} := {key[1]} changed",
+                      f"assigned when {got.project(need).to_dnf()}; PEP 440 rule: {want.to_dnf()}", loc=ck.loc(),
+                      witness=got.project(need).diff_witness(want))
+        for key in assigns:
+            if key not in spec:
+                ctx.bad("R4", f"{M}._cmpkey: unexpected assignment {key[0]} := {key[1]}", "", loc=ck.loc())
+        rv = _single_return(ck)
+        ctx.check("R4", rv is not None and unparse(rv) == "(epoch, _release, _pre, _post, _dev, _local)", "_cmpkey returns (epoch, _release, _pre, _post, _dev, _local)",
+                  f"{M}._cmpkey: key tuple order changed", unparse(rv) if rv is not None else "", loc=ck.loc())
+        rel = shapes.single_def(ck, "_release")
+        ok = rel is not None and "itertools.dropwhile(lambda x: x == 0, reversed(release))" in unparse(rel) and unparse(rel).startswith("tuple(reversed(")
+        ctx.check("R4", ok, "_cmpkey: trailing zeros of the release are dropped", f"{M}._cmpkey: release normalisation changed", unparse(rel) if rel is not None else "", loc=ck.loc())
     call = [c for c in ast.walk(vinit.node) if isinstance(c, ast.Call) and unparse(c.func) == "_cmpkey"]
-    want_args = [f"self._version.{x}" for x in ("epoch", "release", "pre", "post", "dev", "local")]
-    ctx.check("R4", len(call) == 1 and [unparse(a) for a in call[0].args] == want_args, "Version.__init__ passes (epoch, release, pre, post, dev, local) to _cmpkey",
+    # each positional argument of _cmpkey is the segment its parameter names: self._version.<segment>, or the local that the
+    # _Version constructor receives for <segment>
+    seg_of = {kw_.value.id: kw_.arg for c_ in ast.walk(vinit.node) if isinstance(c_, ast.Call) and unparse(c_.func) == "_Version" for kw_ in c_.keywords if isinstance(kw_.value, ast.Name) and kw_.arg}
+    ckf = prog.function(f"{M}._cmpkey")
+
+    def seg_name(a: ast.AST) -> T.Optional[str]:
+        if isinstance(a, ast.Attribute) and unparse(a.value) == "self._version":
+            return a.attr
+        if isinstance(a, ast.Name):
+            return seg_of.get(a.id)
+        return None
+    ctx.check("R4", len(call) == 1 and not call[0].keywords and [seg_name(a) for a in call[0].args] == ckf.params[:6], "Version.__init__ passes (epoch, release, pre, post, dev, local) to _cmpkey",
               f"{M}.Version.__init__: _cmpkey arguments out of order", unparse(call[0]) if call else "", loc=vinit.loc())
 
     # ---------------------------------------------------------------- R5
@@ -173,7 +201,7 @@ def run(ctx) -> None:
     ok = any(isinstance(s, ast.Raise) and "InvalidVersion" in unparse(s) for s in ast.walk(vinit.node))
     ctx.check("R5", ok, "Version.__init__ raises InvalidVersion when the regex does not match", f"{M}.Version.__init__: invalid strings are not rejected with InvalidVersion", "", loc=vinit.loc())
     pv = prog.function("version.parse_version")
-    ctx.check("R5", unparse(_single_return(pv)) == f"setuptools_v65_version.parse({pv.params[0]})", "version.parse_version = setuptools_v65_version.parse", "version.parse_version does not use the vendored parser", "", loc=pv.loc())
+    ctx.check("R5", unparse(shapes.inline(pv, _single_return(pv), prog)) == f"setuptools_v65_version.parse({pv.params[0]})", "version.parse_version = setuptools_v65_version.parse", "version.parse_version does not use the vendored parser", "", loc=pv.loc())
 
     # ---------------------------------------------------------------- R6
     cli = prog.module("cli")
@@ -206,25 +234,23 @@ def run(ctx) -> None:
     vs = prog.klass(f"{M}.Version").methods.get("__str__")
     ctx.require(vs is not None, "Version.__str__ vanished")
     ctx.visit(vs.fq)
-    n_seg = 0
-    for st in walk_no_nested(vs.node):
-        if not isinstance(st, ast.If):
-            continue
-        segs = [x for x in ast.walk(st.test) if isinstance(x, ast.Attribute) and x.attr in ("pre", "post", "dev", "local", "epoch") and unparse(x.value) == "self"]
-        if not segs:
-            continue
-        n_seg += 1
-        seg = segs[0].attr
-        t = st.test
-        if seg == "epoch":
-            continue
-        good = isinstance(t, ast.Compare) and isinstance(t.ops[0], ast.IsNot) and isinstance(t.comparators[0], ast.Constant) and t.comparators[0].value is None
-        ctx.check("R7", good, f"Version.__str__: segment '{seg}' printed when it `is not None`", f"{M}.Version.__str__: segment '{seg}' is tested by truthiness (a number of 0 is dropped)",
-                  f"`if {unparse(t)}`: 1.0.{seg}0 would print without its {seg} segment", loc=vs.loc(st), witness=f"1.0.{seg}0")
-    ctx.floor("R7", "optional segments in Version.__str__", n_seg, 5)
-    canonical_str_rule(ctx, "R7")
-    legacy_key_rule(ctx, "R9")
-    pep440_key_rule(ctx, "R4")
+    if not decided.get("__str__"):
+        n_seg = 0
+        for st in walk_no_nested(vs.node):
+            if not isinstance(st, ast.If):
+                continue
+            segs = [x for x in ast.walk(st.test) if isinstance(x, ast.Attribute) and x.attr in ("pre", "post", "dev", "local", "epoch") and unparse(x.value) == "self"]
+            if not segs:
+                continue
+            n_seg += 1
+            seg = segs[0].attr
+            t = st.test
+            if seg == "epoch":
+                continue
+            good = isinstance(t, ast.Compare) and isinstance(t.ops[0], ast.IsNot) and isinstance(t.comparators[0], ast.Constant) and t.comparators[0].value is None
+            ctx.check("R7", good, f"Version.__str__: segment '{seg}' printed when it `is not None`", f"{M}.Version.__str__: segment '{seg}' is tested by truthiness (a number of 0 is dropped)",
+                      f"`if {unparse(t)}`: 1.0.{seg}0 would print without its {seg} segment", loc=vs.loc(st), witness=f"1.0.{seg}0")
+        ctx.floor("R7", "optional segments in Version.__str__", n_seg, 5)
     from checks.c15 import to_pep440_rule, letter_normalisation
     to_pep440_rule(ctx, "R7")
     # PEP 440 "alternate spellings": exactly these are normalised, each to its short form
@@ -254,36 +280,37 @@ def run(ctx) -> None:
 
     # ---------------------------------------------------------------- R8
     # (a) local version segments: PEP 440 compares them case-insensitively; digits numerically
-    plo = prog.function(f"{M}._parse_local_version")
-    ctx.visit(plo.fq)
-    comps = [n for n in ast.walk(plo.node) if isinstance(n, (ast.GeneratorExp, ast.ListComp)) and len(n.generators) == 1 and isinstance(n.generators[0].target, ast.Name)]
-    ctx.require(len(comps) == 1, "_parse_local_version: segment comprehension not found")
-    seg = comps[0].generators[0].target.id
-    alts: T.List[T.Tuple[bool, ast.AST]] = []      # (segment is all digits, value)
+    if not decided.get("_parse_local_version"):
+        plo = prog.function(f"{M}._parse_local_version")
+        ctx.visit(plo.fq)
+        comps = [n for n in ast.walk(plo.node) if isinstance(n, (ast.GeneratorExp, ast.ListComp)) and len(n.generators) == 1 and isinstance(n.generators[0].target, ast.Name)]
+        ctx.require(len(comps) == 1, "_parse_local_version: segment comprehension not found")
+        seg = comps[0].generators[0].target.id
+        alts: T.List[T.Tuple[bool, ast.AST]] = []      # (segment is all digits, value)
 
-    def split_local(e: ast.AST, digit: T.Optional[bool]) -> None:
-        if isinstance(e, ast.IfExp):
-            t, neg = e.test, False
-            while isinstance(t, ast.UnaryOp) and isinstance(t.op, ast.Not):
-                t, neg = t.operand, not neg
-            ctx.require(unparse(t) in (f"{seg}.isdigit()", f"{seg}.isdecimal()", f"{seg}.isnumeric()") and digit is None,
-                        f"_parse_local_version: segment test not enumerated: `{unparse(e.test)}`")
-            split_local(e.body, not neg)
-            split_local(e.orelse, neg)
-        else:
-            ctx.require(digit is not None, f"_parse_local_version: segments are not classified by isdigit(): `{unparse(e)}`")
-            alts.append((digit, e))
-    split_local(comps[0].elt, None)
-    for digit, e in alts:
-        if digit:
-            ctx.check("R8", unparse(e) == f"int({seg})", "local version: a digit segment becomes int (numeric comparison)",
-                      f"{M}._parse_local_version: digit segments are not compared numerically", f"`{unparse(e)}`: 1.0+9 would sort after 1.0+10", loc=plo.loc(e), witness=["1.0+9", "1.0+10"])
-        else:
-            ctx.check("R8", unparse(e) in (f"{seg}.lower()", f"{seg}.casefold()"), "local version: an alphanumeric segment is lower-cased (PEP 440: case-insensitive)",
-                      f"{M}._parse_local_version: alphanumeric local segments keep their case",
-                      f"`{unparse(e)}`: 1.0+ABC and 1.0+abc compare unequal and print differently, although PEP 440 treats them as the same version", loc=plo.loc(e),
-                      witness=["1.0+ABC", "1.0+abc"])
-    ctx.floor("R8", "alternatives of a local segment", len(alts), 2)
+        def split_local(e: ast.AST, digit: T.Optional[bool]) -> None:
+            if isinstance(e, ast.IfExp):
+                t, neg = e.test, False
+                while isinstance(t, ast.UnaryOp) and isinstance(t.op, ast.Not):
+                    t, neg = t.operand, not neg
+                ctx.require(unparse(t) in (f"{seg}.isdigit()", f"{seg}.isdecimal()", f"{seg}.isnumeric()") and digit is None,
+                            f"_parse_local_version: segment test not enumerated: `{unparse(e.test)}`")
+                split_local(e.body, not neg)
+                split_local(e.orelse, neg)
+            else:
+                ctx.require(digit is not None, f"_parse_local_version: segments are not classified by isdigit(): `{unparse(e)}`")
+                alts.append((digit, e))
+        split_local(comps[0].elt, None)
+        for digit, e in alts:
+            if digit:
+                ctx.check("R8", unparse(e) == f"int({seg})", "local version: a digit segment becomes int (numeric comparison)",
+                          f"{M}._parse_local_version: digit segments are not compared numerically", f"`{unparse(e)}`: 1.0+9 would sort after 1.0+10", loc=plo.loc(e), witness=["1.0+9", "1.0+10"])
+            else:
+                ctx.check("R8", unparse(e) in (f"{seg}.lower()", f"{seg}.casefold()"), "local version: an alphanumeric segment is lower-cased (PEP 440: case-insensitive)",
+                          f"{M}._parse_local_version: alphanumeric local segments keep their case",
+                          f"`{unparse(e)}`: 1.0+ABC and 1.0+abc compare unequal and print differently, although PEP 440 treats them as the same version", loc=plo.loc(e),
+                          witness=["1.0+ABC", "1.0+abc"])
+        ctx.floor("R8", "alternatives of a local segment", len(alts), 2)
     # (b') legacy keys are case-normalised: the tokenizer receives the lower-cased string
     lck = prog.function(f"{M}._legacy_cmpkey")
     ctx.visit(lck.fq)
@@ -302,41 +329,42 @@ def run(ctx) -> None:
     # (b) legacy keys: a tuple of strings; numbers padded so that string order is numeric order
     pvp = prog.function(f"{M}._parse_version_parts")
     ctx.visit(pvp.fq)
-    yields = [n for n in walk_no_nested(pvp.node) if isinstance(n, ast.Yield) and n.value is not None]
-    ctx.floor("R8", "yield sites in _parse_version_parts", len(yields), 2)
-    STR_METHODS = {"zfill", "lower", "upper", "strip", "rjust", "ljust", "format", "join", "replace", "casefold"}
-    n_pad = 0
-    for y in yields:
-        v = y.value
-        is_str = (isinstance(v, ast.Constant) and isinstance(v.value, str)) or \
-                 (isinstance(v, ast.BinOp) and isinstance(v.op, ast.Add) and any(isinstance(x, ast.Constant) and isinstance(x.value, str) for x in (v.left, v.right))) or \
-                 (isinstance(v, ast.Call) and isinstance(v.func, ast.Attribute) and v.func.attr in STR_METHODS) or isinstance(v, ast.JoinedStr)
-        ctx.check("R8", is_str, f"_parse_version_parts yields a string (`{unparse(v)}`)", f"{M}._parse_version_parts: a legacy key component is not a string",
-                  f"`yield {unparse(v)}`: legacy keys then mix types, and comparing two legacy versions where a number meets a word raises TypeError "
-                  f"(no total order)", loc=pvp.loc(y), witness=["1.0.dev-rc", "1.0.1-rc"])
-        if isinstance(v, ast.Call) and isinstance(v.func, ast.Attribute) and v.func.attr in ("zfill", "rjust"):
-            n_pad += 1
-            w = v.args[0].value if v.args and isinstance(v.args[0], ast.Constant) else None
-            ctx.check("R8", isinstance(w, int) and w >= 8, f"numeric legacy parts are zero-padded to {w} digits", f"{M}._parse_version_parts: numeric parts are padded to fewer than 8 digits",
-                      f"`{unparse(v)}`", loc=pvp.loc(y))
-    # the digit branch must be one of the padded yields
-    dig = [n for n in walk_no_nested(pvp.node) if isinstance(n, ast.If) and "0123456789" in unparse(n.test)]
-    ctx.require(len(dig) == 1, "_parse_version_parts: digit test not found")
-    dy = [n for st in dig[0].body for n in ast.walk(st) if isinstance(n, ast.Yield)]
-    ok_pad = len(dy) == 1 and isinstance(dy[0].value, ast.Call) and isinstance(dy[0].value.func, ast.Attribute) and dy[0].value.func.attr in ("zfill", "rjust")
-    ctx.check("R8", ok_pad,
-              "numeric legacy parts are yielded zero-padded (string order == numeric order)", f"{M}._parse_version_parts: numeric parts are not zero-padded strings",
-              f"`{unparse(dy[0].value) if dy else None}`: '10' would sort before '9'", loc=pvp.loc(dig[0]))
-
-    # ---------------------------------------------------------------- R7 (continued): segment order of the canonical form
-    order = []
-    for st in vs.node.body:
-        for x in ast.walk(st):
-            if isinstance(x, ast.Attribute) and unparse(x.value) == "self" and x.attr in ("epoch", "release", "pre", "post", "dev", "local") and x.attr not in order:
-                order.append(x.attr)
-    ctx.check("R7", order == ["epoch", "release", "pre", "post", "dev", "local"], "Version.__str__ prints epoch, release, pre, post, dev, local in this order",
-              f"{M}.Version.__str__: segments are printed in a non-canonical order", f"order {order}: e.g. 1.0a1.dev2 would print as 1.0.dev2a1, which is not PEP 440 and does not parse back",
-              loc=vs.loc(), witness="1.0a1.dev2")
+    if not decided.get("_parse_version_parts"):
+        yields = [n for n in walk_no_nested(pvp.node) if isinstance(n, ast.Yield) and n.value is not None]
+        ctx.floor("R8", "yield sites in _parse_version_parts", len(yields), 2)
+        STR_METHODS = {"zfill", "lower", "upper", "strip", "rjust", "ljust", "format", "join", "replace", "casefold"}
+        n_pad = 0
+        for y in yields:
+            v = y.value
+            is_str = (isinstance(v, ast.Constant) and isinstance(v.value, str)) or \
+                     (isinstance(v, ast.BinOp) and isinstance(v.op, ast.Add) and any(isinstance(x, ast.Constant) and isinstance(x.value, str) for x in (v.left, v.right))) or \
+                     (isinstance(v, ast.Call) and isinstance(v.func, ast.Attribute) and v.func.attr in STR_METHODS) or isinstance(v, ast.JoinedStr)
+            ctx.check("R8", is_str, f"_parse_version_parts yields a string (`{unparse(v)}`)", f"{M}._parse_version_parts: a legacy key component is not a string",
+                      f"`yield {unparse(v)}`: legacy keys then mix types, and comparing two legacy versions where a number meets a word raises TypeError "
+                      f"(no total order)", loc=pvp.loc(y), witness=["1.0.dev-rc", "1.0.1-rc"])
+            if isinstance(v, ast.Call) and isinstance(v.func, ast.Attribute) and v.func.attr in ("zfill", "rjust"):
+                n_pad += 1
+                w = v.args[0].value if v.args and isinstance(v.args[0], ast.Constant) else None
+                ctx.check("R8", isinstance(w, int) and w >= 8, f"numeric legacy parts are zero-padded to {w} digits", f"{M}._parse_version_parts: numeric parts are padded to fewer than 8 digits",
+                          f"`{unparse(v)}`", loc=pvp.loc(y))
+        # the digit branch must be one of the padded yields
+        dig = [n for n in walk_no_nested(pvp.node) if isinstance(n, ast.If) and "0123456789" in unparse(n.test)]
+        ctx.require(len(dig) == 1, "_parse_version_parts: digit test not found")
+        dy = [n for st in dig[0].body for n in ast.walk(st) if isinstance(n, ast.Yield)]
+        ok_pad = len(dy) == 1 and isinstance(dy[0].value, ast.Call) and isinstance(dy[0].value.func, ast.Attribute) and dy[0].value.func.attr in ("zfill", "rjust")
+        ctx.check("R8", ok_pad,
+                  "numeric legacy parts are yielded zero-padded (string order == numeric order)", f"{M}._parse_version_parts: numeric parts are not zero-padded strings",
+                  f"`{unparse(dy[0].value) if dy else None}`: '10' would sort before '9'", loc=pvp.loc(dig[0]))
+    if not decided.get("__str__"):
+        # ---------------------------------------------------------------- R7 (continued): segment order of the canonical form
+        order = []
+        for st in vs.node.body:
+            for x in ast.walk(st):
+                if isinstance(x, ast.Attribute) and unparse(x.value) == "self" and x.attr in ("epoch", "release", "pre", "post", "dev", "local") and x.attr not in order:
+                    order.append(x.attr)
+        ctx.check("R7", order == ["epoch", "release", "pre", "post", "dev", "local"], "Version.__str__ prints epoch, release, pre, post, dev, local in this order",
+                  f"{M}.Version.__str__: segments are printed in a non-canonical order", f"order {order}: e.g. 1.0a1.dev2 would print as 1.0.dev2a1, which is not PEP 440 and does not parse back",
+                  loc=vs.loc(), witness="1.0a1.dev2")
     # ---------------------------------------------------------------- R8 (continued): the implicit post release `1.0-0`
     # `if not letter and number:` relies on `number` being the captured text ("0" is truthy); an int 0 would drop the segment
     truthy_number = [n for n in ast.walk(plv.node) if isinstance(n, (ast.If, ast.IfExp, ast.BoolOp))
@@ -361,7 +389,7 @@ def run(ctx) -> None:
                   loc=conv[0][0].loc(conv[0][1]) if conv else plv.loc(), witness=["1.0-0", "1.0"])
 
 
-def canonical_str_rule(ctx, rule: str) -> None:
+def canonical_str_rule(ctx, rule: str) -> T.Dict[str, bool]:
     """Version.__str__ evaluated for every combination of epoch {0, 1}, pre {None, a0, rc1}, post/dev {None, 0, n},
     local {None, label}: the PEP 440 canonical form `[N!]N(.N)*[{a|b|rc}N][.postN][.devN][+local]`; the post / dev
     properties hand on the number, not the letter."""
@@ -383,7 +411,7 @@ def canonical_str_rule(ctx, rule: str) -> None:
                 wrong.append(f"{want!r} is printed as {got!r}")
     except (CannotFold, TypeError, AttributeError, KeyError, ValueError, IndexError) as ex:
         ctx.observe(f"Version.__str__ not evaluated ({type(ex).__name__}: {str(ex)[:80]}); the structural printing rules decide alone")
-        return
+        return {"__str__": False}
     ctx.check(rule, not wrong, f"Version.__str__ prints the PEP 440 canonical form ({n} segment combinations evaluated)",
               f"{M}.Version.__str__: a PEP 440 version is not printed in canonical form", "; ".join(wrong[:3]), loc=vs.loc(), witness={"cases": wrong[:4]})
     props = {f.name: f for f in prog.klass(f"{M}.Version").methods.values()}
@@ -402,6 +430,7 @@ def canonical_str_rule(ctx, rule: str) -> None:
             continue
         ctx.check(rule, not bad, f"Version.{seg} is the number of the {seg} segment (None when absent; 0 is a number)", f"{M}.Version.{seg}: not the number of the {seg} segment",
                   "; ".join(bad[:2]), loc=pf.loc(), witness=f"1.0.{seg}0")
+    return {"__str__": True}
 
 
 LEGACY_MAP = {"pre": "c", "preview": "c", "-": "final-", "rc": "c", "dev": "@"}          # pkg_resources' replacement table
@@ -431,7 +460,7 @@ def _ref_key(parts: T.List[str]) -> T.Tuple[int, T.Tuple[str, ...]]:
     return -1, tuple(out)
 
 
-def legacy_key_rule(ctx, rule: str) -> None:
+def legacy_key_rule(ctx, rule: str) -> T.Dict[str, bool]:
     """The two functions that build the key of a non-PEP 440 version are evaluated on bounded inputs and compared with
     the pkg_resources algorithm they are vendored from: _parse_version_parts on every sequence of up to 3 tokens of a
     13-token alphabet (the regex split is abstracted), _legacy_cmpkey on every sequence of up to 4 parts of a 7-part
@@ -442,7 +471,10 @@ def legacy_key_rule(ctx, rule: str) -> None:
     pvp = prog.function(f"{M}._parse_version_parts")
     lck = prog.function(f"{M}._legacy_cmpkey")
     ctx.visit(pvp.fq, lck.fq)
-    tab = prog.const(M, "_legacy_version_replacement_map")
+    try:
+        tab = prog.const(M, "_legacy_version_replacement_map")
+    except AnalysisError:
+        tab = LEGACY_MAP          # renamed and edited: the evaluation below reads it through the function
     ctx.check(rule, tab == LEGACY_MAP, "_legacy_version_replacement_map is pkg_resources' table", f"{M}._legacy_version_replacement_map differs from pkg_resources' table",
               f"{tab}", loc=f"src/bumpver/{M}.py")
 
@@ -452,6 +484,8 @@ def legacy_key_rule(ctx, rule: str) -> None:
 
         def split(self, text: T.Any) -> T.List[str]:
             return list(self.tokens)
+    split_calls = [c.func.value.id for c in ast.walk(pvp.node) if isinstance(c, ast.Call) and isinstance(c.func, ast.Attribute) and c.func.attr == "split" and isinstance(c.func.value, ast.Name)]
+    splitter_name = split_calls[0] if len(split_calls) == 1 else "_legacy_version_component_re"
     alphabet = ["", ".", "-", "0", "1", "10", "007", "a", "rc", "pre", "dev", "final", "x"]
     wrong: T.List[str] = []
     n = 0
@@ -460,7 +494,7 @@ def legacy_key_rule(ctx, rule: str) -> None:
             for toks in itertools.product(alphabet, repeat=k):
                 if k == 3 and toks[1] not in ("", ".", "-", "0", "10", "rc"):
                     continue          # the middle of a triple: separators, numbers and one word
-                env = {pvp.params[0]: "VERSION", "_legacy_version_component_re": Splitter(list(toks)), "__strict__": True}
+                env = {pvp.params[0]: "VERSION", splitter_name: Splitter(list(toks)), "__strict__": True}
                 try:
                     ret, ys = prog.run_body(pvp, env)
                     got = list(ys) if ys or ret is None else list(ret)
@@ -498,9 +532,10 @@ def legacy_key_rule(ctx, rule: str) -> None:
         ctx.check(rule, not wrong2, f"_legacy_cmpkey == pkg_resources' key on {n2} part sequences (epoch -1; trailing zero groups and '-' before a pre-release word removed; terminates)",
                   f"{M}._legacy_cmpkey: the key of a legacy version is not pkg_resources' key (or is not computed at all)", "; ".join(wrong2[:2]), loc=lck.loc(), witness={"cases": wrong2[:4]})
     ctx.floor(rule, "legacy key functions evaluated", int(bool(n)) + int(bool(n2)), 0)
+    return {"_parse_version_parts": bool(n), "_legacy_cmpkey": bool(n2)}
 
 
-def pep440_key_rule(ctx, rule: str) -> None:
+def pep440_key_rule(ctx, rule: str) -> T.Dict[str, bool]:
     """(a) Version.__init__ reads every named group of VERSION_PATTERN, each into the segment it belongs to; (b) the local
     label is split into lower-cased words and ints (_parse_local_version, evaluated); (c) _cmpkey, evaluated for
     4 releases x pre/post/dev present or not x 4 local labels, is packaging's key: trailing zeros of the release dropped,
@@ -521,7 +556,7 @@ def pep440_key_rule(ctx, rule: str) -> None:
     read_by: T.Dict[str, T.Set[str]] = {}
     for kw in ctor[0].keywords:
         if kw.arg:
-            read_by[kw.arg] = {c.args[0].value for c in ast.walk(kw.value) if isinstance(c, ast.Call) and isinstance(c.func, ast.Attribute) and c.func.attr == "group"
+            read_by[kw.arg] = {c.args[0].value for c in ast.walk(shapes.inline(vi, kw.value, prog)) if isinstance(c, ast.Call) and isinstance(c.func, ast.Attribute) and c.func.attr == "group"
                                and c.args and isinstance(c.args[0], ast.Constant)}
     want = {"epoch": {"epoch"}, "release": {"release"}, "pre": {"pre_l", "pre_n"}, "post": {"post_l", "post_n1", "post_n2"}, "dev": {"dev_l", "dev_n"}, "local": {"local"}}
     ctx.check(rule, set().union(*want.values()) == groups - {"pre", "post", "dev"}, "VERSION_PATTERN has the named groups of PEP 440's appendix B", f"{M}.VERSION_PATTERN: named groups changed",
@@ -540,11 +575,13 @@ def pep440_key_rule(ctx, rule: str) -> None:
 
         def split(self, text: T.Any) -> T.List[str]:
             return list(self.parts)
+    sep_calls = [c.func.value.id for c in ast.walk(plv.node) if isinstance(c, ast.Call) and isinstance(c.func, ast.Attribute) and c.func.attr == "split" and isinstance(c.func.value, ast.Name)]
+    sep_name = sep_calls[0] if len(sep_calls) == 1 else "_local_version_separators"
     bad: T.List[str] = []
     n = 0
     try:
         for parts in (None, ["abc"], ["ABC", "1", "Twelve"], ["007"], ["1"]):
-            env = {plv.params[0]: None if parts is None else "LOCAL", "_local_version_separators": Splitter(parts or []), "__strict__": True}
+            env = {plv.params[0]: None if parts is None else "LOCAL", sep_name: Splitter(parts or []), "__strict__": True}
             try:
                 got, _ys = prog.run_body(plv, env)
             except EvalError as ex:
@@ -602,3 +639,4 @@ def pep440_key_rule(ctx, rule: str) -> None:
                       "; ".join(bad3[:2]), loc=lp.loc(), witness="1.0+abc.1")
         except (CannotFold, TypeError, AttributeError, KeyError, ValueError, IndexError):
             pass
+    return {"_parse_local_version": bool(n), "_cmpkey": bool(n2)}
